@@ -1,6 +1,7 @@
 import RedisVerif.Driver.C07
 import RedisVerif.Driver.C08
 import RedisVerif.Driver.C06
+import RedisVerif.Driver.C16
 
 open RedisVerif.Driver
 
@@ -23,6 +24,7 @@ def main (args : List String) : IO UInt32 := do
   let stdout ← IO.getStdout
   match args with
   | ["C07"] => loop stdin stdout C07.step; return 0
+  | ["C16"] => loop stdin stdout C16.step; return 0
   | ["C06"] => loopState stdin stdout C06.step (RedisVerif.Cluster.init 0 false); return 0
   | ["C08"] => loopState stdin stdout C08.step (RedisVerif.Shard.init 0 false); return 0
   | _ => IO.eprintln "usage: rvdriver <property-id> < ops"; return 2
